@@ -23,7 +23,9 @@ func (g *gen) startTime() *string {
 		return nil
 	case 1:
 		return ptr(g.pick([]string{"", "1:00:00", "25:10:30", "99:59:59", "00:00:00", "ab:cd:ef", "10:00:00 ", "10:00", "10:00:0x", "١٠:٠٠:٠٠",
-			"+9:30:00", "09:+5:00", "-1:00:00", "09:30:+5", "09:30:-5", " 9:30:00", "24:30:00", "00:30:00", "9:30:00", "009:30:00", "0x:30:00", "1e:00:00"}))
+			"+9:30:00", "09:+5:00", "-1:00:00", "09:30:+5", "09:30:-5", " 9:30:00", "24:30:00", "00:30:00", "9:30:00", "009:30:00", "0x:30:00", "1e:00:00",
+			// exactly eight BYTES, the digits of another script among them: not HH:MM:SS
+			"\u0668:30:00", "\u0662:\u0662:\u0662", "09:30:\u0660", "\u0969\u0966:00", "\uff11:30:00"}))
 	default:
 		return ptr(fmt.Sprintf("%02d:%02d:%02d", g.r.Intn(30), g.r.Intn(60), g.r.Intn(60)))
 	}
@@ -34,7 +36,8 @@ func (g *gen) startDate() *string {
 		return nil
 	case 1:
 		return ptr(g.pick([]string{"", "2023111", "202311140", "2023-11-14", "20231305", "20230231", "00000000", "20231105", "20230312", "99991231", "2023111x",
-			"00010101", "00010102", "00000615", "19000229", "21000229", "20240229", "20230229", "+2023111", "-2023111", "2023 114", "0x231114"}))
+			"00010101", "00010102", "00000615", "19000229", "21000229", "20240229", "20230229", "+2023111", "-2023111", "2023 114", "0x231114",
+			"202401\u0663", "\u0662\u0660\u0662\u0664", "2024\u0660\u0661", "19700101", "19691231"}))
 	default:
 		return ptr(fmt.Sprintf("%04d%02d%02d", 2020+g.r.Intn(6), 1+g.r.Intn(12), 1+g.r.Intn(28)))
 	}
@@ -236,7 +239,7 @@ func (g *gen) selector(mercury bool) *gtfsrt.EntitySelector {
 		so := g.pick([]string{"MTASBWY:L:", "MTASBWY:A:", "x", "", "a:b:"})
 		switch g.r.Intn(8) {
 		case 0:
-			so += g.pick([]string{"", "x", "-1", "999", "+5", "4294967298", "99999999999999999999"})
+			so += g.pick([]string{"", "x", "-1", "999", "+5", "4294967298", "99999999999999999999", "2147483648", "4294967295", "+3000000000", "9223372036854775807", "2147483647", "-2147483649", "4294967326", "00030", "3 "})
 		default:
 			so += fmt.Sprint(1 + g.r.Intn(42))
 		}
@@ -341,7 +344,19 @@ func (g *gen) conflictFree(nyct, alerts bool) *gtfsrt.FeedMessage {
 		for k := 1 + g.r.Intn(3); k > 0; k-- {
 			sib := proto.Clone(base).(*gtfsrt.TripDescriptor)
 			var sib2 *gtfsrt.TripDescriptor
-			switch g.r.Intn(6) {
+			switch g.r.Intn(8) {
+			case 7:
+				// direction_id 0 next to no direction_id at all: "absent" is not "0"
+				sib2 = proto.Clone(base).(*gtfsrt.TripDescriptor)
+				sib.DirectionId, sib2.DirectionId = nil, ptr(uint32(0))
+			case 6:
+				// "absent" next to the value a zero-initialised field would hold: no start time vs 00:00:00, no date vs 1970-01-01
+				sib2 = proto.Clone(base).(*gtfsrt.TripDescriptor)
+				if g.coin(0.6) {
+					sib.StartTime, sib2.StartTime = nil, ptr("00:00:00")
+				} else {
+					sib.StartDate, sib2.StartDate = nil, ptr("19700101")
+				}
 			case 0:
 				sib.StartDate = nil
 			case 1:
@@ -461,6 +476,9 @@ func (g *gen) conflictFree(nyct, alerts bool) *gtfsrt.FeedMessage {
 			// alerts may reference the message's own trips with the same descriptor
 			if len(trips) > 0 && g.coin(0.5) {
 				a.InformedEntity = append(a.InformedEntity, &gtfsrt.EntitySelector{Trip: proto.Clone(trips[g.r.Intn(len(trips))].td).(*gtfsrt.TripDescriptor)})
+				for len(trips) > 1 && g.coin(0.5) && len(a.InformedEntity) < 6 { // several of them in one alert
+					a.InformedEntity = append(a.InformedEntity, &gtfsrt.EntitySelector{Trip: proto.Clone(trips[g.r.Intn(len(trips))].td).(*gtfsrt.TripDescriptor)})
+				}
 			}
 			aid := g.pick(alertIDs[:5])
 			if nyct {
